@@ -362,7 +362,9 @@ public:
     std::pair<PTRef, PTRef> leqToConstantAndTerm(PTRef) const;
 
     // MB: In pure LA, there are never nested boolean terms
-    vec<PTRef> getNestedBoolRoots(PTRef) const override { return vec<PTRef>(); }
+    vec<PTRef> getNestedBoolRoots(PTRef tr) const override {
+        return (hasUFs() or hasArrays()) ? Logic::getNestedBoolRoots(tr) : vec<PTRef>();
+    }
 
 protected:
     friend class LessThan_deepPTRef;
